@@ -76,3 +76,19 @@ Print Assumptions C04_allocations_equally_likely.
 Example C04_allocations_nonvacuous :
   count (fun p => perm_eq (take 2 p) [:: 3; 1]) (permutations [:: 0; 1; 2; 3; 4]) = 12.
 Proof. vm_compute. reflexivity. Qed.
+
+(* permute_rows (simulate_ts_dist's rearrangement of every rater's row): over the product answer space -- one block of
+   Fisher-Yates answers per row -- it is total, injective and onto the row-wise rearrangements, hence uniform on them
+   (duplicate-free rows, i.e. positions; size of the space prod_r (size r)!) *)
+From PV Require Import Model.Stratified Proofs.StratUniform Proofs.RowsUniform.
+Theorem C04_permute_rows_is_uniform_on_rowwise_rearrangements : forall (T : eqType) (m : seq (seq T)), all uniq m ->
+  [/\ size (prod_draws (row_sizes m)) = \prod_(r <- m) (size r)`!,
+      forall t rest, t \in prod_draws (row_sizes m) ->
+        exists2 m', permute_rows m (t ++ rest) = Ok (m', rest) & rowwise_perm m m',
+      forall t t' m', t \in prod_draws (row_sizes m) -> t' \in prod_draws (row_sizes m) ->
+        permute_rows m t = Ok (m', [::]) -> permute_rows m t' = Ok (m', [::]) -> t = t' &
+      forall m', rowwise_perm m m' -> exists2 t, t \in prod_draws (row_sizes m) & permute_rows m t = Ok (m', [::])].
+Proof.
+move=> T m U; split; [exact: size_rows_space | exact: rows_total | by move=> t t' m'; apply: rows_inj | by move=> m'; apply: rows_surj].
+Qed.
+Print Assumptions C04_permute_rows_is_uniform_on_rowwise_rearrangements.
